@@ -88,6 +88,14 @@ func (p *parser) peek() lexer.Token {
 	return p.tokens[p.pos]
 }
 
+// peekNext returns token following the next one.
+func (p *parser) peekNext() lexer.Token {
+	if len(p.tokens) <= p.pos+1 {
+		return lexer.Token{Type: lexer.EOF}
+	}
+	return p.tokens[p.pos+1]
+}
+
 func (p *parser) unread() {
 	if p.pos > 0 {
 		p.pos--
